@@ -49,6 +49,8 @@ type frame struct {
 	incoming  map[*ssa.BasicBlock][]*inEdge
 	nextIter  map[*ssa.BasicBlock][]*inEdge
 	unrolling []*loopInfo // stack of loops currently being unrolled
+	sig       *types.Signature
+	pnames    []string // parameter names (receiver first), for contract expressions
 }
 
 // inEdge is one (possibly virtual, per unrolled iteration) control-flow edge arriving at a block.
@@ -165,6 +167,7 @@ func (e *Engine) execFunc(fn *ssa.Function, args []Val, binds []Val, st *State, 
 		f.depth = parent.depth + 1
 	} else {
 		f.top = true
+		f.frameRule = e.topFrameRule
 	}
 	if fn.Recover != nil {
 		panic(reject("function with recover"))
@@ -179,6 +182,7 @@ func (e *Engine) execFunc(fn *ssa.Function, args []Val, binds []Val, st *State, 
 		f.vals[fv] = binds[i]
 	}
 	f.params = args
+	f.setSig(fn)
 	f.entry = st.clone()
 	prevFrame := e.curFrame
 	e.curFrame = f
@@ -724,6 +728,22 @@ func (e *Engine) runBlock(f *frame, b *ssa.BasicBlock) {
 		}
 	}
 	for v := range snapVals {
+		// the merged value is meaningful only for uses this block dominates (another exit block of the same loop
+		// must not overwrite it)
+		used := false
+		if inst, ok := v.(ssa.Instruction); ok {
+			_ = inst
+		}
+		if refs := v.Referrers(); refs != nil {
+			for _, r := range *refs {
+				if rb := r.Block(); rb == b || b.Dominates(rb) {
+					used = true
+				}
+			}
+		}
+		if !used {
+			continue
+		}
 		var vs []Val
 		var cs []*smt.Term
 		for _, ed := range in {
@@ -772,5 +792,23 @@ func (e *Engine) runUnrolled(f *frame, li *loopInfo, n int) {
 		f.nextIter[h] = nil
 		e.runBlocks(f, loopOrder, li)
 		f.incoming[h] = f.nextIter[h]
+	}
+}
+
+// setSig records the parameter names and signature used to resolve names in contract expressions.
+func (f *frame) setSig(fn *ssa.Function) {
+	f.sig = fn.Signature
+	f.pnames = nil
+	for _, p := range fn.Params {
+		f.pnames = append(f.pnames, p.Name())
+	}
+}
+
+// setIfaceSig: a frame standing for an interface method (no body): the receiver is called "self".
+func (f *frame) setIfaceSig(sig *types.Signature) {
+	f.sig = sig
+	f.pnames = []string{"self"}
+	for i := 0; i < sig.Params().Len(); i++ {
+		f.pnames = append(f.pnames, sig.Params().At(i).Name())
 	}
 }
